@@ -581,4 +581,10 @@ def rules(model: Model, tier: str) -> List[RuleResult]:
     _davidson(model, D)
     _svd(model, S)
     _validation(model, V)
-    return [R, T, Q, D, S, V]
+    from ..rules import autograd as _ac
+    _R11 = RuleResult(PROP, "AC11", "every exit of the public functional returns the Function's output; forward's solution comes only from the dispatched implementation; operands unchanged", min_instances=2)
+    for _cn in ['symeig_torchfcn']:
+        _fc = _ac.get_fncls(model, _cn)
+        _ac.ac11_wrapper_returns(model, _fc, _R11)
+        _ac.ac11_forward_provenance(model, _fc, _R11)
+    return [R, T, Q, D, S, V, _R11]
